@@ -48,6 +48,10 @@ def run(ck):
     import os
     os.remove(fl)
     ck.bound("lineage_witness_configuration", "3 slots, sizes {2,3}, <=7 ops, lineage length %d" % (2 if ck.quick else 3))
+    # conversions between all four layouts in 2 and 3 dimensions (shared with C05): every transition of Construct / Write /
+    # Convert / ConvertMove over 3 slots
+    fc, nc = lc.gen(ck, "Gen_Lifecycle.convq.cfg" if ck.quick else "Gen_Lifecycle.conv.cfg", "conv", timeout=2400)
+    lc.replay(ck, [fc], ["asan"])
     sim = 40 if ck.quick else 600
     f2, n2 = lc.gen(ck, "Gen_Lifecycle.sim.cfg", "sim", simulate=sim, depth=31, timeout=900)
     files.append(f2)
